@@ -250,6 +250,10 @@ type BlocksParams struct {
 
 func GenBlocks(t *rapid.T) BlocksParams {
 	p := BlocksParams{N: rapid.IntRange(129, 420).Draw(t, "N")}
+	if rapid.IntRange(0, 3).Draw(t, "boundaryN") == 0 {
+		// exactly full / just over / just under a whole number of 128-document blocks
+		p.N = rapid.SampledFrom([]int{128, 127, 129, 255, 256, 257, 384, 385}).Draw(t, "Nboundary")
+	}
 	p.TermPer = rapid.IntRange(1, 7).Draw(t, "termPer")
 	p.IDEvery = rapid.SampledFrom([]int{0, 1, 3}).Draw(t, "idEvery")
 	nb := (p.N + 127) / 128
